@@ -86,7 +86,9 @@ func c02Rewrite(c *core.Ctx) {
 		c.Unres(rC02Split, f.Name, f.Decl.Pos(), "anchor-unresolved: ast node types")
 		return
 	}
-	rules := []ordabs.Value{mk(r1), mk(r2), mk(r3), mk(r4), r5}
+	// a variable that receives its value on the right-hand side of an equation: u(K,N) :- a(K,X), fn:mult(X,10) = W |> do ...
+	r6 := hClause{headPred: "u", head: []hTerm{K, hv("N")}, hasDo: true, doKeys: []string{"K"}, prems: []hPrem{{kind: "atom", pred: "a", args: []hTerm{K, X}}, {kind: "eq", l: hf("fn:mult", X, hc(10)), r: hv("W")}}}
+	rules := []ordabs.Value{mk(r1), mk(r2), mk(r3), mk(r4), r5, mk(r6)}
 	prog := q.k.zero("analysis", "Program")
 	prog.Fields["Rules"] = &ordabs.Slice{Elems: &rules}
 	in.Fuel = 500000
@@ -114,8 +116,8 @@ func c02Rewrite(c *core.Ctx) {
 			internal[hp]++
 		}
 	}
-	if len(internal) != 3 {
-		problems = append(problems, fmt.Sprintf("three multi-premise aggregating rules must get three different internal predicates, got %v (rules sharing one intermediate relation reduce the union of their bodies' solutions)", internal))
+	if len(internal) != 4 {
+		problems = append(problems, fmt.Sprintf("four multi-premise aggregating rules must get three different internal predicates, got %v (rules sharing one intermediate relation reduce the union of their bodies' solutions)", internal))
 	}
 	for name, n := range internal {
 		if n != 1 {
@@ -123,7 +125,7 @@ func c02Rewrite(c *core.Ctx) {
 		}
 	}
 	// each internal rule: columns = variables of its body; the consumer reads exactly that atom
-	wantCols := map[string]string{"a(K,X), a(K,Y)": "K X Y", "b(K,X), b(K,_)": "K X", "a(K,X), c(Y)": "E K S X Y"}
+	wantCols := map[string]string{"a(K,X), a(K,Y)": "K X Y", "b(K,X), b(K,_)": "K X", "a(K,X), c(Y)": "E K S X Y", "a(K,X), fn:mult(X,10) = W": "K W X"}
 	for name := range internal {
 		r := byHead[name][0]
 		_, cols := backAtom(r.Fields["Head"])
@@ -209,6 +211,10 @@ func backPremsTL(v ordabs.Value) []string {
 		r := p.(*ordabs.Rec)
 		if r.T == "ast.TemporalLiteral" {
 			r, _ = r.Fields["Literal"].(*ordabs.Rec)
+		}
+		if r != nil && r.T == "ast.Eq" {
+			out = append(out, backTerm(r.Fields["Left"]).String()+" = "+backTerm(r.Fields["Right"]).String())
+			continue
 		}
 		pr, as := backAtom(r)
 		var ss []string
